@@ -3620,6 +3620,12 @@ func (r *JournalReader) Next() (err error) {
 		}
 	}
 
+	// The page size is unknown if the database file is empty so the journal
+	// cannot contain any page of it.
+	if r.pageSize == 0 {
+		return io.EOF
+	}
+
 	// Ensure offset is sector-aligned.
 	r.offset = journalHeaderOffset(r.offset, int64(r.sectorSize))
 
